@@ -274,16 +274,10 @@ func (w *world) verifyCKKS(cp ckks.Parameters, enc *ckks.Encoder, want []complex
 	})
 }
 
-// pickLogSlots samples a slot count; the conjugate-invariant encoder of the pinned tree does not
-// round-trip a single slot (Encode/Decode alone return garbage for LogSlots=0, a C07 matter), so
-// the smallest count used there is 2.
+// pickLogSlots samples a slot count from 1 slot to the maximum (the maximum a third of the time).
 func (w *world) pickLogSlots(maxLog int) int {
-	lo := 0
-	if w.cf.Ring == "ci" {
-		lo = 1
-	}
 	if w.rnd.N(3) == 0 {
 		return maxLog
 	}
-	return lo + w.rnd.N(maxLog-lo+1)
+	return w.rnd.N(maxLog + 1)
 }
